@@ -1,5 +1,6 @@
 //! ysim — deterministic simulation with fault injection for yrs (see /verif/DESIGN.md)
 
+mod anchors;
 mod arena;
 mod bits;
 mod cell;
